@@ -282,6 +282,16 @@ def chk_roundtrip_ber(T, v, M):
             continue
         if got != want or rest:
             out.append(fail('rt-ber', T, v, 'round trip differs', mode=mode, enc=e, got=repr(got), rest=rest))
+            continue
+        # ... and the library's own comparison agrees that what came back is what went in
+        try:
+            same = (r == val) and (val == r) and not (r != val)
+        except Exception as ex:
+            out.append(fail('rt-ber', T, v, 'comparing the decoded value with the original raised %s: %s' % (
+                type(ex).__name__, str(ex)[:100]), mode=mode, enc=e))
+            continue
+        if not same:
+            out.append(fail('rt-ber', T, v, 'the decoded value does not compare equal to the original', mode=mode, enc=e))
     return out, n
 
 
